@@ -1,6 +1,7 @@
 package main
 
 import (
+	"bytes"
 	"encoding/json"
 	"fmt"
 	"net"
@@ -37,7 +38,7 @@ func init() {
 var c07Kinds = []string{
 	"panic-bind", "panic-search", "panic-modify", "panic-add", "panic-delete", "panic-extended",
 	"panic-starttls", "panic-unbind", "panic-default",
-	"reset-midframe", "truncated-fin", "malformed", "former-decode-panic", "stop-reading-then-reset", "stalled-reader-held", "storm-of-panics", "mutated-frames",
+	"reset-midframe", "truncated-fin", "malformed", "former-decode-panic", "stop-reading-then-reset", "stalled-reader-held", "storm-of-panics", "mutated-frames", "abandon-flood",
 }
 
 var (
@@ -163,7 +164,8 @@ func c07FaultFrame(kind string, id int64) []byte {
 	case "panic-bind":
 		return sber.Message(id, sber.BindRequest(3, []byte("PANIC-NOW"), []byte("p")), nil).Encode()
 	case "panic-search":
-		return c07Search(id, "PANIC-NOW")
+		// (with the limits a real client sets: size, time, deref, typesOnly)
+		return sber.Message(id, sber.Search{Base: []byte("PANIC-NOW"), Scope: id % 3, Deref: id % 4, SizeLimit: id % 7, TimeLimit: 30 * (id % 2), TypesOnly: id%5 == 0, Filter: sber.PresentFilter("cn"), Attrs: [][]byte{}}.Node(), nil).Encode()
 	case "panic-modify":
 		return sber.Message(id, sber.ModifyRequest([]byte("PANIC-NOW"), nil), nil).Encode()
 	case "panic-add":
@@ -261,6 +263,20 @@ func c07Inject(c *Ctx, srv *Srv, cs c07Case, r *Rand) {
 		cl.Send(pick(r, inputs))
 		cl.C.SetReadDeadline(time.Now().Add(300 * time.Millisecond))
 		sber.ReadFrame(cl.br)
+	case cs.Kind == "abandon-flood":
+		// nothing but Abandon requests, as many as the server will take (up to 5 million): whatever it does with an
+		// operation it does not support, doing it over and over costs this connection at most
+		frame := sber.Message(2, sber.Prim(sber.Application, sber.AppAbandonRequest, sber.IntBytes(1)), nil).Encode()
+		chunk := bytes.Repeat(frame, 8192)
+		sent := 0
+		cl.C.SetWriteDeadline(time.Now().Add(60 * time.Second))
+		for sent < 5000000 {
+			if _, err := cl.C.Write(chunk); err != nil {
+				break
+			}
+			sent += 8192
+		}
+		c.Count("abandon_frames_sent", int64(sent))
 	case cs.Kind == "mutated-frames":
 		// a slice of the single-point shape/type mutations of every canonical request (the C02 corpus): should any of
 		// them make gldap's own code panic, that must stay this connection's problem
